@@ -52,6 +52,14 @@ class LoopSpec:
     def iteration(self, cx, lp):
         return []
 
+    def ghost_init(self, cx, lp):
+        """initial definition of ghost functions (assumed at loop entry; they must be fresh symbols)"""
+        return []
+
+    def ghost_update(self, cx, lp):
+        """definitions of the ghost (history) functions at index lp.k, assumed at the end of iteration k"""
+        return []
+
 
 class CallCtx:
     """arguments + entry state of a call (or of the function under proof)"""
@@ -92,6 +100,10 @@ class ExitCtx:
         self.H = st.heap
         self.kind = kind        # 'return' | 'raise'
         self.value = value      # SV | SExc
+
+    def loop(self, n):
+        """LoopCtx of the n-th loop of the function under proof at this exit (None if not reached)"""
+        return getattr(self.st, 'locals_callee', self.st.locals).get('$loop%d' % n)
 
 
 def unify(pattern, actual, E):
